@@ -160,7 +160,9 @@ class Triangle(Domain):
         bary_coords = torch.permute(
             torch.stack(torch.meshgrid((x, y))), (2, 1, 0)
         ).reshape(-1, 2)
-        index = torch.where(bary_coords.sum(axis=1) <= 1)
+        # inner grid: the points on the third side (sum == 1) are left out as
+        # those on the other two sides are, so that at most n points remain
+        index = torch.where(bary_coords.sum(axis=1) < 1 - 1e-6)
         return bary_coords[index]
 
     def _grid_has_n_points(self, n, bary_coords, device):
